@@ -33,6 +33,28 @@ func (h *vH) run(c *Container, q vReq) vOut {
 	return o
 }
 
+// runServe: the same through the container's ServeMux (Container.ServeHTTP).
+func (h *vH) runServe(c *Container, q vReq) vOut {
+	h.invoked, h.selPath, h.selMeth, h.params, h.panicked = nil, nil, nil, nil, false
+	rec := vNewRec()
+	func() {
+		defer func() {
+			if x := recover(); x != nil {
+				if _, ok := x.(verifStop); ok {
+					panic(x)
+				}
+				h.panicked = true
+			}
+		}()
+		c.ServeHTTP(rec, q.http())
+	}()
+	o := vOut{invoked: -1, nInvoked: len(h.invoked), status: rec.code(), panicked: h.panicked}
+	if len(h.invoked) > 0 {
+		o.invoked = h.invoked[0]
+	}
+	return o
+}
+
 // vAllowSet parses a concrete Allow header into a sorted, de-duplicated list.
 func vAllowSet(allow string) []string {
 	var out []string
